@@ -464,12 +464,198 @@ func init() {
 		}
 		return args, np
 	})
+	// [version; event json]: events whose top-level member names differ from the struct field
+	// names only by case (encoding/json matches them, canonical JSON and redaction do not) -
+	// the input class of known finding F31
+	RegisterImpl("C18.casefold", func(args [][]byte) ([][]byte, []byte) {
+		verImpl, err := gmsl.GetRoomVersion(gmsl.RoomVersion(args[0]))
+		if err != nil {
+			return args, np
+		}
+		ev, err := verImpl.NewEventFromUntrustedJSON(args[1])
+		if err != nil || ev == nil {
+			return args, np
+		}
+		_ = ev.EventID()
+		_ = ev.RoomID()
+		_ = ev.AuthEventIDs()
+		if ae, err := gmsl.NewAuthEvents(nil); err == nil {
+			_ = gmsl.Allowed(ev, ae, c18UserIDForSender)
+		}
+		ev.Redact()
+		_ = ev.EventID()
+		_ = ev.RoomID()
+		_ = ev.AuthEventIDs()
+		if ae, err := gmsl.NewAuthEvents(nil); err == nil {
+			_ = gmsl.Allowed(ev, ae, c18UserIDForSender)
+		}
+		return args, np
+	})
+	// [version; event json]: Sign applied to an accepted event whose signatures were NOT verified
+	// first - the input class of known finding F30
+	RegisterImpl("C18.sign_unverified", func(args [][]byte) ([][]byte, []byte) {
+		verImpl, err := gmsl.GetRoomVersion(gmsl.RoomVersion(args[0]))
+		if err != nil {
+			return args, np
+		}
+		ev, err := verImpl.NewEventFromUntrustedJSON(args[1])
+		if err != nil || ev == nil {
+			return args, np
+		}
+		_ = ev.Sign("signer.example", "ed25519:1", sk)
+		return args, np
+	})
+	// [make_join template json]: EventBuilder.Build on a remote template (regression for F33),
+	// and state resolution on a cycle of auth events (regression for F34)
+	RegisterImpl("C18.template", func(args [][]byte) ([][]byte, []byte) {
+		var pe gmsl.ProtoEvent
+		if json.Unmarshal(args[1], &pe) != nil {
+			return args, np
+		}
+		verImpl, err := gmsl.GetRoomVersion(gmsl.RoomVersion(args[0]))
+		if err != nil {
+			return args, np
+		}
+		eb := verImpl.NewEventBuilderFromProtoEvent(&pe)
+		_, _ = eb.Build(time.Now(), "local.example", "ed25519:1", sk)
+		return args, np
+	})
+	RegisterImpl("C18.cycle", func(args [][]byte) ([][]byte, []byte) {
+		ver := gmsl.RoomVersion(args[0])
+		verImpl, err := gmsl.GetRoomVersion(ver)
+		if err != nil {
+			return args, np
+		}
+		var evs []gmsl.PDU
+		for _, j := range args[1:] {
+			if ev, err := verImpl.NewEventFromTrustedJSON(j, false); err == nil {
+				evs = append(evs, ev)
+			}
+		}
+		if len(evs) < 2 {
+			return args, np
+		}
+		notRejected := func(string) bool { return false }
+		_, _ = gmsl.ResolveConflicts(ver, evs, evs, c18UserIDForSender, notRejected)
+		_, _ = gmsl.ResolveConflictsNew(ver, [][]gmsl.PDU{evs[:1], evs[1:]}, evs, c18UserIDForSender, notRejected)
+		_ = gmsl.ReverseTopologicalOrdering(evs, gmsl.TopologicalOrderByAuthEvents)
+		return args, np
+	})
 	RegisterProp("C18", genC18)
+}
+
+// c18Ordered renders an object with its members in the given order (Go maps would sort them)
+func c18Ordered(pairs [][2]string) []byte {
+	var b strings.Builder
+	b.WriteString("{")
+	for i, p := range pairs {
+		if i > 0 {
+			b.WriteString(",")
+		}
+		k, _ := json.Marshal(p[0])
+		b.Write(k)
+		b.WriteString(":")
+		b.WriteString(p[1])
+	}
+	b.WriteString("}")
+	return []byte(b.String())
+}
+
+// c18CaseFoldEvents: events with case-variant member names, with the content hash the library
+// will compute, the exact-case member first and the variant last (encoding/json lets the last win)
+func c18CaseFoldEvents(ver gmsl.RoomVersion) [][]byte {
+	verImpl, _ := gmsl.GetRoomVersion(ver)
+	v1fmt := verImpl != nil && verImpl.EventFormat() == gmsl.EventFormatV1
+	base := func(typ, sk string) [][2]string {
+		p := [][2]string{{"type", strconvQuote(typ)}, {"sender", `"@a:x"`}, {"content", `{"creator":"@a:x"}`}, {"depth", "1"},
+			{"origin_server_ts", "1"}, {"prev_events", "[]"}, {"auth_events", "[]"}}
+		if sk != "-" {
+			p = append(p, [2]string{"state_key", strconvQuote(sk)})
+		}
+		if v1fmt {
+			p = append(p, [2]string{"event_id", `"$e:x"`})
+		}
+		return p
+	}
+	var out [][]byte
+	add := func(p [][2]string) {
+		j := c18Ordered(p)
+		// take the hash from the re-hashed form, keep our member order
+		var m map[string]json.RawMessage
+		if json.Unmarshal(c18Rehash(j), &m) == nil {
+			p = append([][2]string{{"hashes", string(m["hashes"])}}, p...)
+		}
+		out = append(out, c18Ordered(p))
+	}
+	// an unusable room_id under the exact name, a good one under a case variant
+	for _, bad := range []string{"garbage", "", "!", "!AAAAAAAAAAAAAAAAAAAAAAAAAAAAAAAAAAAAAAAAAAA"} {
+		for _, good := range []string{"!r:x", "!AAAAAAAAAAAAAAAAAAAAAAAAAAAAAAAAAAAAAAAAAAA"} {
+			for _, ty := range [][2]string{{"m.x", "-"}, {"m.room.create", ""}, {"m.room.member", "@a:x"}} {
+				p := append([][2]string{{"room_id", strconvQuote(bad)}}, base(ty[0], ty[1])...)
+				p = append(p, [2]string{"ROOM_ID", strconvQuote(good)})
+				add(p)
+			}
+		}
+	}
+	// an event ID smuggled in under a case variant (formats whose ID is the reference hash)
+	for _, id := range []string{"x", "$", ":", "$other"} {
+		p := append([][2]string{{"room_id", `"!r:x"`}}, base("m.room.create", "")...)
+		p = append(p, [2]string{"Event_id", strconvQuote(id)})
+		add(p)
+		p = base("m.room.create", "") // v12: a create event carries no room_id
+		p = append(p, [2]string{"Event_id", strconvQuote(id)})
+		add(p)
+	}
+	// type flips between create and non-create
+	p := append([][2]string{{"room_id", `""`}, {"type", `"m.x"`}}, base("m.room.create", "")[1:]...)
+	p = append(p, [2]string{"TYPE", `"m.room.create"`})
+	add(p)
+	return out
+}
+
+func strconvQuote(s string) string {
+	b, _ := json.Marshal(s)
+	return string(b)
 }
 
 func genC18(c *Ctx) {
 	r := c.Rng
 	vers := c18AllVersions()
+	// 0. the input classes of recorded findings (known: F30, F31) and of repaired ones (F33, F34)
+	for _, v := range vers {
+		for _, j := range c18CaseFoldEvents(v) {
+			c.Run("C18.casefold", [][]byte{B(string(v)), j}, "C18.nopanic", "", "case-variant member names")
+			c.Count("casefold")
+		}
+		for _, sig := range []string{`5`, `"x"`, `{"a":5}`, `{"a":{"ed25519:1":"@@@"}}`, `[]`, `true`, `{"a":null}`, `null`, `{}`} {
+			p := [][2]string{{"room_id", `"!r:x"`}, {"sender", `"@a:x"`}, {"type", `"m.x"`}, {"content", `{}`}, {"depth", "1"}, {"origin_server_ts", "1"},
+				{"prev_events", "[]"}, {"auth_events", "[]"}, {"event_id", `"$e:x"`}, {"signatures", sig}}
+			c.Run("C18.sign_unverified", [][]byte{B(string(v)), c18Rehash(c18Ordered(p))}, "C18.nopanic", "", "Sign on unverified signatures "+sig)
+			c.Count("sign_unverified")
+		}
+		for _, refs := range []string{`[[]]`, `[[5]]`, `[""]`, `[["$a:x"]]`, `[["$a:x",{"sha256":"AAAA"}]]`, `["$a"]`, `[[],[]]`, `[null]`, `[{}]`, `"x"`, `5`, `null`, `[[""]]`} {
+			for _, field := range []string{"prev_events", "auth_events"} {
+				other := "auth_events"
+				if field == "auth_events" {
+					other = "prev_events"
+				}
+				t := fmt.Sprintf(`{"type":"m.room.member","room_id":"!room:remote","sender":"@me:local","state_key":"@me:local","content":{"membership":"join"},%q:%s,%q:[],"depth":1}`, field, refs, other)
+				c.Run("C18.template", [][]byte{B(string(v)), B(t)}, "C18.nopanic", "", "remote template "+field+"="+refs)
+				c.Count("template")
+			}
+		}
+		verImpl, _ := gmsl.GetRoomVersion(v)
+		if verImpl != nil && verImpl.EventFormat() == gmsl.EventFormatV1 {
+			mk := func(id, ty, sk, auth string) []byte {
+				return B(fmt.Sprintf(`{"event_id":%q,"type":%q,"state_key":%q,"room_id":"!r:x","sender":"@a:x","content":{"users":{"@a:x":100}},"depth":2,"origin_server_ts":5,"prev_events":[],"auth_events":[[%q,{"sha256":"AAAA"}]]}`, id, ty, sk, auth))
+			}
+			c.Run("C18.cycle", [][]byte{B(string(v)), mk("$p1:x", "m.room.power_levels", "", "$p2:x"), mk("$p2:x", "m.room.power_levels", "", "$p1:x"), mk("$m:x", "m.room.member", "@a:x", "$p1:x")},
+				"C18.nopanic", "", "two power-level events naming each other as auth events")
+			c.Run("C18.cycle", [][]byte{B(string(v)), mk("$p1:x", "m.room.power_levels", "", "$p1:x"), mk("$t:x", "m.room.topic", "", "$p1:x")},
+				"C18.nopanic", "", "a power-level event naming itself as auth event")
+			c.Count("cycle")
+		}
+	}
 	// 1. hostile single events, every version
 	n := c.Scale(120, 1500)
 	for _, v := range vers {
